@@ -314,9 +314,49 @@ def rule_R4(text):
     return text[:toks[e0].start] + new + text[toks[any_close].end:]
 
 
-RULES = {"R1": rule_R1, "R2": rule_R2, "R3": rule_R3, "R4": rule_R4}
+def rule_R5(text):
+    """X.to_le_bytes()  ->  __to_le_bytes(X)   (X an identifier or a parenthesised expression).
+    Verus cannot attach a specification to the core method (its return type contains an anonymous
+    constant), so the call is redirected to a wrapper carrying the assumed contract."""
+    n = 0
+    while True:
+        toks = tokenize(text)
+        hit = None
+        for i in range(len(toks)):
+            if _seq(toks, i, [".", "to_le_bytes", "(", ")"]):
+                hit = i
+                break
+        if hit is None:
+            break
+        i = hit
+        if toks[i - 1].text == ")":
+            depth, j = 0, i - 1
+            while j >= 0:
+                if toks[j].text == ")":
+                    depth += 1
+                elif toks[j].text == "(":
+                    depth -= 1
+                    if depth == 0:
+                        break
+                j -= 1
+            r0 = j
+        elif toks[i - 1].kind == "id":
+            r0 = i - 1
+        else:
+            raise Unsupported("R5: receiver of to_le_bytes")
+        X = text[toks[r0].start:toks[i].start]
+        text = text[:toks[r0].start] + "__to_le_bytes(%s)" % X + text[toks[i + 3].end:]
+        n += 1
+    if n == 0:
+        raise Unsupported("R5 matches 0 times")
+    return text
+
+
+RULES = {"R1": rule_R1, "R2": rule_R2, "R3": rule_R3, "R4": rule_R4, "R5": rule_R5}
 
 RULE_TEXT = {
+    "R5": "X.to_le_bytes()  =>  __to_le_bytes(X)  (call redirected to a wrapper with the assumed little-endian contract; "
+          "Verus cannot attach a specification to the core method)",
     "R4": "E.iter().any(|v| P)  =>  ({ let mut __a = false; for __r in E.iter() { let v = __r; if P "
           "{ __a = true; break; } } __a })",
     "R1": "E.iter().for_each(|&v| B);  =>  for __r in E.iter() { let v = *__r; B; }",
@@ -538,7 +578,7 @@ def assemble(template_path, repo):
             with open(inc, encoding="utf-8") as f:
                 lines[i:i + 1] = f.read().split("\n")
             continue
-        m = re.match(r"//@(item|fn|frag)\s+(\S+)\s*::\s*(.*)$", s)
+        m = re.match(r"//@(itemx|item|fn|frag)\s+(\S+)\s*::\s*(.*)$", s)
         if not m:
             raise Unsupported("template %s line %d: bad directive %r" % (template_path, i + 1, s))
         kind, rel, rest = m.group(1), m.group(2), m.group(3)
@@ -642,6 +682,17 @@ def assemble(template_path, repo):
         else:
             raise Unsupported("unterminated block for %s" % where)
         i += 1
+        if kind == "itemx":
+            # verbatim item with listed textual substitutions (e.g. an elided 'static lifetime Verus wants spelled out)
+            text = src[item.start:item.end]
+            for a_, b_ in d["substs"]:
+                text, nsub = re.subn(a_, b_, text)
+                if nsub == 0:
+                    raise LostAnchor("%s: subst /%s/ does not match" % (where, a_))
+                ex.substs.append("%s: s/%s/%s/ (%d)" % (where, a_, b_, nsub))
+            ex.items.append({"file": rel, "path": segs, "line": _line_of(src, item.start)})
+            emit(text, rel, _line_of(src, item.start))
+            continue
         if kind == "fn":
             a = item.start
             text = src[a:item.end]
